@@ -28,14 +28,15 @@ class SqParser:
             outputdir=output_dir)
 
     def list_names(self, expr: str) -> Iterable[str]:
-        self.lex.lexpos = 0
-        self.lex.lineno = 1
-        self.lex.paren_count = 0
+        # own copy of the lexer: the generator may be consumed lazily, interleaved with other calls
+        lexer = self.lex.clone()
+        lexer.lineno = 1
+        lexer.paren_count = 0
 
-        self.lex.input(expr)
+        lexer.input(expr)
 
         while True:
-            t = self.lex.token()
+            t = lexer.token()
             if t is None:
                 return
             if t.type == 'NAME':
